@@ -77,6 +77,23 @@ def run_mc(pid, tier, out):
             out["violations"].append(("design-level: %s violated in family %s" % (v, fam), path))
         if r.get("states", 0) < 100:
             raise MachineryError("vacuous model-checking run (family %s: %s states)" % (fam, r.get("states")))
+    if pid == "C05":
+        # cross-check of the safety form: termination as a liveness property
+        # under weak fairness, no state constraint
+        for fam in (["B", "W"] if tier == "quick" else ["B", "W", "A"]):
+            cfgt = ("SPECIFICATION FairSpec\nCONSTANT Configs <- MCConfigs\nCONSTANT FamilyName = \"%s\"\n"
+                    "PROPERTY Terminates\nCHECK_DEADLOCK FALSE\n" % fam)
+            r = core.run_tlc("MC_Sim", cfgt, heap="12g", workers=8)
+            if core.tlc_failed(r["out"]):
+                raise MachineryError("TLC failed on liveness of family %s:\n%s" % (fam, r["out"][-3000:]))
+            v = core.tlc_violation(r["out"])
+            samples.append({"mc_family": fam, "liveness": "<>(run # running) under WF(Next)",
+                            "states": r.get("states", 0), "violated": v, "wall_s": round(r["wall"], 1)})
+            if v:
+                i = r["out"].find("Error:")
+                path = core.write_replay(pid, "live_" + fam, {"kind": "mc", "family": fam, "violated": "Terminates",
+                                                               "tlc": r["out"][i:i + 20000]})
+                out["violations"].append(("design-level: termination violated in family %s" % fam, path))
     # design-level reproduction of the listed known findings (expected failures)
     for kf in [k for k in core.known_findings() if k.get("kind") == "known" and k["property"] == pid]:
         inv = {"C07": "I_C07_bounds", "C05": "I_C05_bound"}.get(pid)
